@@ -30,6 +30,7 @@ EXPLANATION = (
     "(the extent of a never-resized matrix, the column kinds of an output table); a read of a place that the same body writes and has not yet redefined (evaluation k+1 reads what evaluation "
     "k left) is reported unless it is a guarded resize to a computed extent, the padding of a resize, or a projection `P = match P {..}` proven idempotent by evaluating its arms on their own "
     "results; what is decided is this data-flow fact about the source, not the equality of the values held after k and k+1 evaluations."
+    ' (R8) order-sensitive identity operations - the Hash, PartialOrd / Ord and Display impls of mech_core (by trait, for every self type), closures included - never call an iteration method of a std HashMap / HashSet (per-instance random order: equal records would hash differently, so two interpreters running the same program would hold different sets); PartialEq::eq is not judged (a conjunction over a map is order-free); a positive control proves the detector fires.'
 )
 CRATES = X.FXN_CRATES
 NONDET = re.compile(r"^std::time::|^rand::|^rand_core::|^getrandom::|^std::env::|SystemTime|Instant::now|thread_rng|^std::process::id")
@@ -134,6 +135,8 @@ class StepRun:
 
 
 def run(F, rep, tier):
+    from rules import c19_hashorder
+    c19_hashorder.run(F, rep)   # R8: Hash / Ord / Display of the value types never iterate a std hash collection
     rep.rule("C19-R1", "Interpreter::step: counted forward passes over the whole plan / a single step")
     rep.rule("C19-R2", "non-assignment solve bodies are idempotent: write only their output, never accumulate into it or append without clearing")
     rep.rule("C19-R3", "the plan is append-only")
